@@ -47,6 +47,7 @@ def norm(spec):
     s.setdefault("sibling_contract", False)  # pset/pdel: the (otherwise bare) getter of the same property carries contracts
     s.setdefault("explicit_enabled", False)  # add enabled=True to every contract decorator (C15: interpreter modes)
     s.setdefault("foreign", None)  # a foreign functools.wraps decorator on the leaf: None|top|mid|bottom
+    s.setdefault("recreate", False)  # re-create the leaf class from its own namespace (dataclass(slots=True) does)
     s.setdefault("post_old", "all")  # do postcondition *conditions* ask for OLD ("all") or only the error factories ("none")
     for lv in s["levels"]:
         lv.setdefault("pre", 0)
@@ -328,6 +329,12 @@ def render(spec):
                 raise ValueError(kind)
         if not body_any:
             w("    pass\n")
+    if spec.get("recreate"):
+        # the leaf class is created once more from the namespace of the original class, the way
+        # dataclasses.dataclass(slots=True) does: nothing about its contracts may change
+        w("def _recreate(cls):\n    d = dict(cls.__dict__)\n    d.pop('__dict__', None)\n    d.pop('__weakref__', None)\n"
+          "    return type(cls)(cls.__name__, cls.__bases__, d)\n")
+        w("L{0} = _recreate(L{0})\n".format(nlev - 1))
     return "".join(out)
 
 
@@ -658,7 +665,7 @@ def feat(spec, shape="-", body_mode="-", mut="-"):
         "inv_on": "/".join(lv["inv_on"] for lv in spec["levels"]),
         "defines": "/".join("1" if lv["defines"] else "0" for lv in spec["levels"]),
         "style": spec["style"], "err": spec["err"], "layout": spec["layout"], "cap_alias": spec["cap_alias"],
-        "post_old": spec["post_old"], "foreign": spec["foreign"], "sibling_contract": spec["sibling_contract"],
+        "post_old": spec["post_old"], "foreign": spec["foreign"], "recreate": spec.get("recreate", False), "sibling_contract": spec["sibling_contract"],
         "shape": shape, "body": body_mode, "mut": mut,
     }
 
